@@ -1,6 +1,7 @@
 package sfh
 
 import (
+	"runtime"
 	"bytes"
 	"fmt"
 	"strconv"
@@ -95,7 +96,46 @@ var concFoldOpts = gotype.Folders(
 	},
 	func(p *cuPair, v structform.ExtVisitor) error { return v.OnIntArray([]int{p.A, p.B}) },
 	func(e *cuExp, v structform.ExtVisitor) error { return v.OnString(strconv.Itoa(int(*e))) },
+	// POINTER-SHAPED types (a map; a struct of one pointer): when such a value is not addressable
+	// (top level, inside interface{} / map[string]interface{} / []interface{}) the library hands the
+	// fold function the address of a COPY; the function yields before it reads its argument, so
+	// that a copy shared between Iterators built from this option value is observed
+	func(t *cuTags, v structform.ExtVisitor) error {
+		runtime.Gosched()
+		return v.OnString(fmt.Sprintf("tags:%d:%d", len(*t), (*t)["id"]))
+	},
+	func(b *cuBox, v structform.ExtVisitor) error {
+		runtime.Gosched()
+		return v.OnInt(*b.P)
+	},
 )
+
+type cuTags map[string]int
+type cuBox struct{ P *int }
+
+// values of the pointer-shaped types in every non-addressable position, folded with the SHARED options
+func concUserPtrShaped(g int) string {
+	var buf bytes.Buffer
+	it, err := gotype.NewIterator(json.NewVisitor(&buf), concFoldOpts)
+	if err != nil {
+		return "err:iter"
+	}
+	n := 100 + g
+	tags := cuTags{"id": g}
+	for i := 0; i < g%5; i++ {
+		tags[fmt.Sprintf("k%d", i)] = i
+	}
+	vals := []interface{}{tags, cuBox{&n},
+		map[string]interface{}{"t": tags}, map[string]interface{}{"b": cuBox{&n}}, // one member each: map iteration order is random
+		[]interface{}{tags, cuBox{&n}, []interface{}{tags}}}
+	for _, v := range vals {
+		if err := it.Fold(v); err != nil {
+			return "err:fold:" + err.Error()
+		}
+		buf.WriteByte(';')
+	}
+	return buf.String()
+}
 
 func cuInput(g int) cuRecord {
 	return cuRecord{Name: fmt.Sprintf("g%d", g), Level: cuLevel(1 + g%3), Temp: cuTemp(float64(g) + 0.5), Pair: cuPair{g, -g},
@@ -148,5 +188,5 @@ func concUserPipeline(in cuRecord, yield func()) string {
 			}
 		}
 	}
-	return fmt.Sprintf("%s=>%+v", doc, out)
+	return fmt.Sprintf("%s=>%+v|%s", doc, out, concUserPtrShaped(len(in.Name)*7+in.Pair.A))
 }
